@@ -425,7 +425,7 @@ def gen_lines(g, n):
     # --- represent_integer / represent_integer_non_diag: the real functions (level 1 constants) over a byte stream
     pL = vlib.LEVELS[1]["p"]
     trials = klpt_trials()
-    nrep = max(24, ncases // 400)
+    nrep = max(24, min(600, ncases // 400))
     for i in range(nrep):
         nd = i % 2
         c = r.below(10)
@@ -812,7 +812,8 @@ def run_parallel(ctx, exe, lines, nproc=16):
     if n == 0:
         return [], []
     k = min(nproc, max(1, n // 200))
-    chunks = [lines[i * n // k:(i + 1) * n // k] for i in range(k)]
+    # round-robin assignment: expensive suites (repint, howell) are contiguous in `lines`
+    chunks = [lines[i::k] for i in range(k)]
 
     def one(ch):
         rc, cout, cerr = vlib.run_c([exe], ch)
@@ -823,8 +824,11 @@ def run_parallel(ctx, exe, lines, nproc=16):
 
     with ThreadPoolExecutor(max_workers=k) as ex:
         parts = list(ex.map(one, chunks))
-    c = [x for p in parts for x in p[0]]
-    m = [x for p in parts for x in p[1]]
+    c = [None] * n
+    m = [None] * n
+    for i, (cres, mres) in enumerate(parts):
+        c[i::k] = cres
+        m[i::k] = mres
     return c, m
 
 
